@@ -10,6 +10,17 @@ real `Simulation` from outside and the Lean Spec (`HappyModel/C07/Spec.lean`) ju
 
 The model side has no per-component model: the driver's `model` mode states the theorems' expectation
 for a scenario summary (`past 0`, `timetravel 0`, `spin 0`), so any violation is also a disagreement.
+
+One component's timer *is* modelled (`HappyModel/C07/Rearm.lean`, family `rearm-shift`): `ShiftedServer`'s
+self-perpetuating `_ShiftChange` event over generated `ShiftSchedule`s whose boundaries come from the duration palette
+(incl. values that lose a nanosecond in `Instant.from_seconds`).  The driver's `rearm` mode predicts every
+`_ShiftChange` delivery (instant, capacity in force); Lean proves that the pre-fix timer re-arms at the same instant
+forever at such a boundary and that the timer that exists handles every boundary once, in order, never in the past.
+
+Scenario generation (`hv/scenarios/`): every family draws every constructor parameter and every policy / strategy
+variant of its components (`python -m hv.scenarios.coverage` lists what is left), durations from a boundary palette
+(`base.dur_ms`), sizes around the library's internal constants (`base.size_over`), light / overload / burst regimes;
+families may define `gen_cfg_wide` (all variants in one run).
 """
 from __future__ import annotations
 
@@ -48,8 +59,18 @@ class C07(core.Property):
         "HappyModel.C07.instant_does_not_feed_itself",
         "HappyModel.C07.judge_none_iff_holds",
         "HappyModel.C07.spin_witness_unbounded",
+        "HappyModel.C07.Rearm.old_rearms_same_instant",
+        "HappyModel.C07.Rearm.old_spins",
+        "HappyModel.C07.Rearm.old_unbounded",
+        "HappyModel.C07.Rearm.chain_length_le",
+        "HappyModel.C07.Rearm.chain_not_past",
+        "HappyModel.C07.Rearm.chain_indices",
+        "HappyModel.C07.Rearm.chain_exact",
     ]
     partial_theorems = {
+        "HappyModel.C07.Rearm.chain_exact":
+            "the timer model covers ShiftedServer's `_ShiftChange` chain only (instants and capacities of the shift changes, "
+            "compared with the real component on generated schedules); the job flow through the server is C08's model",
         "HappyModel.C07.deliveries_at_instant_bounded":
             "proved under the explicit handler hypothesis StrictFuture (every emitted event is strictly later than now); "
             "the general statement for handlers that may emit at `now` with a decreasing rank "
@@ -61,31 +82,45 @@ class C07(core.Property):
     }
     hypotheses = ["EmitsGeNow: every spec a handler returns has time ≥ now (checked on the real components by the push monitor)",
                   "PreGeStart: pre-run events are scheduled at or after the start time",
-                  "StrictFuture (progress theorems only): every spec a handler returns has time > now"]
+                  "StrictFuture (progress theorems only): every spec a handler returns has time > now",
+                  "Rearm.Sorted bs: the schedule's boundary instants int(b*1e9) are non-decreasing in schedule order",
+                  "Rearm.LossyAt bs t (old-timer theorems only): some boundary stamped t reads back (ns/1e9) strictly before itself"]
     variants = ["current"]
-    quick_cases = 130
-    thorough_cases = 2400
+    quick_cases = 400
+    thorough_cases = 3000
     case_timeout_s = 60
     pool_workers = 1   # a case takes ~0.1 s in-process; the fork pool only adds stalls on a loaded machine
     search_budget = {"quick": 24, "thorough": 200}
     CAP = 20000
     rule = ("one case = (scenario family, generated cfg, seed); families are the modules hv/scenarios/fam_*.py, one per "
             "component directory of happysimulator/components plus stock load sources; generation is round-robin over "
-            "families (families the static audit flags get extra configurations); a case is non-trivial when the run made "
+            "families (families the static audit flags get extra configurations); every family's gen_cfg draws every "
+            "constructor parameter / policy / strategy variant of its components (hv/scenarios/coverage.py lists what is "
+            "left), durations from a boundary palette (whole ms, 1-4 decimal digits, values that lose a nanosecond in the "
+            "seconds->ns truncation such as 1.001 s and 2.05 s, related durations in both orders: pause longer than interval, "
+            "timeout shorter than latency), sizes around and above the library's internal constants, light load / sustained "
+            "overload / same-instant bursts; 40 % of the cases are a family's maximum-coverage configuration (all variants "
+            "in one run) where it defines one; the thorough tier lengthens a fifth of the runs 2-3x; a case is non-trivial when the run made "
             "≥ 50 deliveries without a library exception; distinct = distinct (family, cfg, seed). Theorem-backed elsewhere in "
             "/verif (component models): " + "; ".join(f"{k}: {v}" for k, v in sorted(MODEL_BACKED_ELSEWHERE.items())) +
-            ". Families whose module says MODEL=None are covered by the monitor only.")
+            ". Families whose module says MODEL=None are covered by the monitor only. Every 12th case is a `rearm-shift` case: a "
+            "generated ShiftSchedule for ShiftedServer, whose `_ShiftChange` deliveries (instant, capacity) are compared with the "
+            "Lean timer model (HappyModel/C07/Rearm.lean) and whose monitored trace is judged like any other.")
     trusted_base = [
         "hv/scenarios/monitor.py (wraps EventHeap.push/pop of the Simulation instance; reads Simulation._event_heap, _clock, Event._cancelled)",
         "hv/scenarios/fam_*.py scenario builders (drive the real components through a real Simulation)",
         "logging handler on happysimulator.core.simulation counting 'Time travel detected'",
         "per-instant delivery watchdog with cap 20000 standing in for 'unbounded'",
+        "rearm-shift glue: ns = int(b * 1e9) and lossy = (ns / 1e9 < b) are computed in Python floats for each boundary b; "
+        "a ShiftedServer subclass overriding handle_event records (now, current_capacity) after each '_ShiftChange'",
     ]
     assumptions = [
         "C07 has no per-component Lean model: the model transcript is the theorems' expectation (past 0, timetravel 0, spin 0) for every scenario, "
         "so a monitored violation is both a disagreement and a Spec violation; components are covered exactly as far as a scenario family drives them",
         "'unbounded number of deliveries at one instant' is observed as 'more than 20000 deliveries at one clock value' (run aborted)",
         "library exceptions raised during a scenario are reported (impl_errors) but are not a C07 clause",
+        "rearm-shift: boundaries lie on a 1 µs grid (distinct boundaries are ≥ 1 ns apart), the first job arrives 370 ns and the "
+        "run ends 777 ns off the ms grid, so float and integer comparisons of instants agree; only deliveries up to end_time are compared",
     ]
 
     # ------------------------------------------------------------------ generation
@@ -100,15 +135,119 @@ class C07(core.Property):
         return [f for f in fams if f in hot] + fams
 
     def generate(self, rng: random.Random, i: int, tier: str) -> dict:
+        from hv.scenarios import draw_cfg
+
+        if i % 12 == 5:
+            return self._gen_rearm(rng)
         order = self._order()
         name = order[i % len(order)]
-        cfg = self._families()[name].gen_cfg(rng)
+        # 40 %: the family's maximum-coverage configuration (every policy / strategy variant in one run, sizes above
+        # the library's internal constants, sustained overload, lossy durations), where the family defines one
+        cfg = draw_cfg(self._families()[name], rng)
+        if tier == "thorough" and "end" in cfg and isinstance(cfg["end"], (int, float)) and rng.random() < 0.2:
+            cfg["end"] = float(cfg["end"]) * rng.choice([2, 3])        # some long runs (wrap-arounds, drift)
         return {"family": name, "cfg": cfg, "seed": rng.randrange(2**31), "cap": self.CAP}
+
+    # ------------------------------------------------------------------ the modelled timer (ShiftedServer)
+    REARM = "rearm-shift"
+
+    def _gen_rearm(self, rng):
+        """a ShiftSchedule for the component whose timer has a Lean model (HappyModel/C07/Rearm.lean): boundaries from
+        the duration palette (whole ms, sub-ms digits, values that lose a nanosecond in Instant.from_seconds)"""
+        from hv.scenarios.base import dur_ms
+
+        end_ms = rng.choice([2000, 3000, 4000, 6000])
+        pts = set()
+        while len(pts) < rng.randint(2, 7):
+            pts.add(dur_ms(rng, 60, end_ms + 400))
+        pts = sorted(pts)
+        shifts = []
+        for k in range(len(pts) - 1):
+            r = rng.random()
+            if r < 0.7:
+                shifts.append([pts[k], pts[k + 1], rng.choice([0, 1, 1, 2, 3])])
+            elif r < 0.85 and k + 2 < len(pts):
+                shifts.append([pts[k], pts[k + 2], rng.choice([1, 2])])      # overlaps the next shift
+            # else: a gap (default capacity)
+        if not shifts:
+            shifts.append([pts[0], pts[-1], 1])
+        if rng.random() < 0.3:
+            shifts.insert(0, [0, pts[0], rng.choice([0, 1])])                 # a shift starting at time zero
+        return {"family": self.REARM, "shifts": shifts, "default": rng.choice([0, 0, 1, 2]),
+                "t0_ms": rng.randint(1, 50), "end_ms": end_ms, "svc_ms": dur_ms(rng, 1, 40),
+                "jobs_ms": sorted(rng.randint(60, end_ms) for _ in range(rng.randint(0, 12))),
+                "seed": rng.randrange(2**31), "cap": self.CAP}
+
+    @staticmethod
+    def _rearm_tables(case):
+        """glue: the float boundaries as the library sees them: ns = int(b * 1e9), lossy = ns / 1e9 < b"""
+        secs = sorted({float(x) / 1000.0 for sh in case["shifts"] for x in sh[:2]})
+        bounds = []
+        for b in secs:
+            ns = int(b * 1_000_000_000)
+            bounds.append((ns, 1 if ns / 1_000_000_000 < b else 0))
+        idx = {b: j for j, b in enumerate(secs)}
+        shifts = sorted(((idx[float(a) / 1000.0], idx[float(b) / 1000.0], int(c)) for a, b, c in case["shifts"]
+                         if float(b) > float(a)), key=lambda t: t[0])
+        t0 = int(case["t0_ms"]) * 1_000_000 + 370
+        end = int(case["end_ms"]) * 1_000_000 + 777
+        return bounds, shifts, t0, end
+
+    def _run_rearm(self, case):
+        from happysimulator.components.common import Sink
+        from happysimulator.components.industrial import Shift, ShiftedServer, ShiftSchedule
+        from happysimulator.core.event import Event
+        from happysimulator.core.simulation import Simulation
+        from happysimulator.core.temporal import Instant
+        from hv.scenarios.base import seed_all
+        from hv.scenarios.monitor import Monitor, RunawayAbort, SpinAbort
+
+        seed_all(int(case["seed"]))
+        _bounds, _shifts, t0, end = self._rearm_tables(case)
+        log = []
+
+        class Logged(ShiftedServer):
+            def handle_event(self, event):
+                r = super().handle_event(event)
+                if event.event_type == "_ShiftChange" and self.now.nanoseconds <= end:
+                    log.append((self.now.nanoseconds, self.current_capacity))
+                return r
+
+        sink = Sink("sink")
+        sched = ShiftSchedule([Shift(float(a) / 1000.0, float(b) / 1000.0, int(c)) for a, b, c in case["shifts"]
+                               if float(b) > float(a)], default_capacity=int(case["default"]))
+        srv = Logged("shifted", sched, service_time=float(case["svc_ms"]) / 1000.0, downstream=sink)
+        sim = Simulation(end_time=Instant(end), entities=[srv, sink])
+        sim.schedule(Event(time=Instant(t0), event_type="Job", target=srv))
+        for ms in case["jobs_ms"]:
+            sim.schedule(Event(time=Instant(int(ms) * 1_000_000 + 370), event_type="Job", target=srv))
+        mon = Monitor(sim, cap=int(case.get("cap", self.CAP)), keep_deliveries=False).attach()
+        err = None
+        try:
+            sim.run()
+        except (SpinAbort, RunawayAbort):
+            pass
+        except Exception as e:
+            err = type(e).__name__
+        finally:
+            mon.detach()
+        return mon, err, log
 
     # ------------------------------------------------------------------ implementation
     def run_impl(self, case):
         from hv.scenarios.monitor import run_scenario
 
+        if case.get("family") == self.REARM:
+            m, err, log = self._run_rearm(case)
+            out = [f"past {m.n_past}", f"timetravel {m.timetravel}", f"spin {m.spin}"]
+            out += [f"sc {t} {c}" for t, c in log]
+            out += [INFO_MARK, f"pushes {m.n_pushes}", f"deliveries {m.n_deliveries}",
+                    f"maxPerInstant {m.max_per_instant}", f"cancelled {m.n_cancelled}", f"stalePops {m.n_stale_pops}",
+                    f"runaway {m.runaway}", f"error {err or 'none'}", TRACE_MARK]
+            out += [f"p {c} {t} {em}" for (c, t, em) in m.pushes]
+            out += [f"d {c} {n}" for (c, n) in m.per_clock]
+            out.append(f"w {m.timetravel}")
+            return out
         cap = int(case.get("cap", self.CAP))
         r = run_scenario(case["family"], case["cfg"], int(case["seed"]), cap=cap, keep_deliveries=False)
         m = r.mon
@@ -129,9 +268,15 @@ class C07(core.Property):
     def compare_view(self, case, impl_out):
         if impl_out and impl_out[0].startswith("IMPL-"):
             return impl_out
+        if case.get("family") == self.REARM and INFO_MARK in impl_out:
+            return impl_out[:impl_out.index(INFO_MARK)]       # summary + the `_ShiftChange` deliveries
         return impl_out[:3]
 
     def model_block(self, case, variant):
+        if case.get("family") == self.REARM:
+            bounds, shifts, t0, end = self._rearm_tables(case)
+            return (f"rearm {int(case['default'])} {t0} {end}",
+                    [f"b {ns} {l}" for ns, l in bounds] + [f"s {lo} {hi} {c}" for lo, hi, c in shifts])
         return (f"model {case['family']}", [])
 
     def judge_block(self, case, impl_out):
@@ -141,6 +286,9 @@ class C07(core.Property):
         return (f"judge {case['family']} {int(case.get('cap', self.CAP))}", impl_out[k + 1:])
 
     def nontrivial_key(self, case, impl_out):
+        if case.get("family") == self.REARM:
+            n = sum(1 for ln in impl_out if ln.startswith("sc "))
+            return json.dumps(case, sort_keys=True) if n >= 1 and "error none" in impl_out else None
         info = {ln.split()[0]: ln.split()[1:] for ln in impl_out[:12] if ln and not ln.startswith("-")}
         err = " ".join(info.get("error", ["none"]))
         if err != "none":   # accounted for in the evidence (extra_checks runs after the cases)
@@ -160,6 +308,13 @@ class C07(core.Property):
     def shrink(self, case, budget=True):
         """generic structural shrink of cfg: drop list elements, lower numbers, shorten the horizon"""
         self._shrunk = getattr(self, "_shrunk", 0)
+        if case.get("family") == self.REARM:
+            for k in range(len(case["shifts"])):
+                if len(case["shifts"]) > 1:
+                    yield {**case, "shifts": case["shifts"][:k] + case["shifts"][k + 1:]}
+            if case["jobs_ms"]:
+                yield {**case, "jobs_ms": []}
+            return
         def walk(node, path):
             if isinstance(node, dict):
                 for k in sorted(node):
@@ -198,10 +353,14 @@ class C07(core.Property):
             yield {**case, "seed": case["seed"] % 3}
 
     def mutate(self, case, rng):
+        from hv.scenarios import draw_cfg
+
+        if case.get("family") == self.REARM:
+            return self._gen_rearm(rng)
         fam = self._families()[case["family"]]
         if rng.random() < 0.5:
             return {**case, "seed": rng.randrange(2**31)}
-        return {**case, "cfg": fam.gen_cfg(rng), "seed": rng.randrange(2**31)}
+        return {**case, "cfg": draw_cfg(fam, rng), "seed": rng.randrange(2**31)}
 
     # ------------------------------------------------------------------ audit + coverage accounting
     def extra_checks(self, ctx):
@@ -223,6 +382,19 @@ class C07(core.Property):
         ctx.stats["family_import_errors"] = dict(IMPORT_ERRORS)
         ctx.stats["component_dirs_without_family"] = self._uncovered(fams)
         ctx.stats["library_exceptions_during_scenarios"] = dict(self.__dict__.get("_lib_errors", {}))
+        try:
+            from hv.scenarios.coverage import report
+
+            cov = report()
+            ctx.stats["constructor_coverage"] = {
+                "library_classes": cov["library_classes"],
+                "classes_never_instantiated": cov["never_instantiated"],
+                "constructor_parameters_never_set": cov["parameters_never_set"],
+                "enum_members_never_used": cov["enum_members_never_used"],
+                "note": "inspect + AST scan of hv/scenarios/fam_*.py (hv/scenarios/coverage.py); supporting only",
+            }
+        except Exception as e:   # the report is supporting information only
+            ctx.stats["constructor_coverage"] = {"error": f"{type(e).__name__}: {e}"}
         return []
 
     def _uncovered(self, fams):
